@@ -89,9 +89,11 @@ def _fn_sir2():
     import netconan.utils.juniper_secrets as js
 
     text, done, failed = translate.translate_module(
-        pm.__file__, pm, wanted=["_get_or_generate_sensitive_word_replacement", "_anonymize_value", "_extract_enclosing_text", "_check_sensitive_item_format"],
+        pm.__file__, pm, wanted=["_get_or_generate_sensitive_word_replacement", "_anonymize_value", "_extract_enclosing_text", "_check_sensitive_item_format",
+                                 "replace_matching_item", "_split_line"],
         oracles=("cisco_type7", "md5_crypt", "sha512_crypt"), xmods={"juniper_secrets": (js, "G_fn_jun")},
-        external=("_extract_enclosing_text", "_check_sensitive_item_format"), requires=("G_fn_sir",))
+        external=("_extract_enclosing_text", "_check_sensitive_item_format"), requires=("G_fn_sir",),
+        method_oracles=("search", "sub", "group", "groupdict"))      # methods of compiled patterns / match objects: answered by the py_call parameter
     return {"coq": text, "translated": done, "refused": failed}
 
 
